@@ -22,9 +22,9 @@ WildPool == {O("https", "example.com", ""), O("https", "example.com", "8080")}  
 FuncOrigin == O("https", "other.org", "")
 
 Cfg == IF Scope = "full"
-       THEN [exact : SUBSET ExactPool, wild : SUBSET WildPool, fn : BOOLEAN, all : BOOLEAN,
+       THEN [exact : SUBSET ExactPool, wild : SUBSET WildPool, fn : BOOLEAN, all : BOOLEAN, blank : BOOLEAN,
              cred : BOOLEAN, pna : BOOLEAN, maxAge : {0, 600}, hdrs : BOOLEAN, expose : BOOLEAN]
-       ELSE {c \in [exact : SUBSET {O("https", "example.com", ""), O("http", "example.com", "8080")}, wild : SUBSET WildPool, fn : BOOLEAN, all : BOOLEAN,
+       ELSE {c \in [exact : SUBSET {O("https", "example.com", ""), O("http", "example.com", "8080")}, wild : SUBSET WildPool, fn : BOOLEAN, all : BOOLEAN, blank : BOOLEAN,
                      cred : BOOLEAN, pna : BOOLEAN, maxAge : {600}, hdrs : BOOLEAN, expose : BOOLEAN] : c.pna = c.hdrs /\ c.expose = c.fn}
 Req == [method : {"GET", "OPTIONS"}, origin : Origins \cup {NoOrigin, NullOrigin}, acrm : BOOLEAN, acrh : BOOLEAN, pna : BOOLEAN, upper : BOOLEAN]
 
@@ -60,7 +60,11 @@ Answer(c, r) ==
 
 Init == stage = 0 /\ cfg \in Cfg /\ req = [method |-> "GET", origin |-> NoOrigin, acrm |-> FALSE, acrh |-> FALSE, pna |-> FALSE, upper |-> FALSE]
 \* a configuration without any origin source means "all"
-WellFormed(c) == (c.all => c.exact = {} /\ c.wild = {} /\ ~c.fn) /\ (~c.all => (c.exact # {} \/ c.wild # {} \/ c.fn))
+\* (blank: the origin list is SET but names nothing -- entries that are empty or blanks, as a split of an empty setting yields.
+\* That is not "no origin source": the constructor may refuse it, and if it does not, nothing is permitted.)
+WellFormed(c) == /\ (c.all => c.exact = {} /\ c.wild = {} /\ ~c.fn)
+                 /\ (~c.all => (c.exact # {} \/ c.wild # {} \/ c.fn \/ c.blank))
+                 /\ (c.blank => c.exact = {} /\ c.wild = {} /\ ~c.fn /\ ~c.all)
 Next == /\ stage = 0 /\ WellFormed(cfg) /\ stage' = 1 /\ UNCHANGED cfg
         /\ \E r \in Req : /\ (r.method = "GET" => ~r.acrm /\ ~r.acrh /\ ~r.pna)
                           /\ (~HasOrigin(r) => ~r.upper)
